@@ -28,18 +28,33 @@ def isFault (c : Cfg) : Item → Bool
   | .file _ .err _ => c.mode == .search
   | _ => false
 
-/-- "An error occurred": some entry is a fault, or nothing at all was searched under an implicit path
-(ripgrep reports that as an error, too). -/
+/-- "An error occurred": the configuration file could not be read or parsed, some entry is a fault, or nothing
+at all was searched under an implicit path (ripgrep reports that as an error, too). -/
 def specErrored (c : Cfg) (all : List Item) : Bool :=
+  c.configErr ||
   match c.mode with
   | .search => c.matchesPossible && (all.any (isFault c) || (c.implicitPath && !all.any isFile))
   | .files => all.any (isFault c)
+
+/-- The run ends with an explicit flush of what is still buffered for stdout (single-writer paths). -/
+def flushes (c : Cfg) : Bool :=
+  match c.mode with
+  | .search => c.matchesPossible && !c.parallel
+  | .files => true
 
 /-- The exit status table of the property. -/
 def specExit (matched errored quiet : Bool) : Nat :=
   if matched ∧ (quiet ∨ ¬ errored) then 0
   else if errored ∧ ¬ (matched ∧ quiet) then 2
   else 1
+
+/-- The table with the last write taken into account (when every earlier write went through): a failing
+flush is an error, a closed pipe ends the run with status 0. -/
+def specExitFull (c : Cfg) (all : List Item) : Nat :=
+  match (if flushes c then c.flush else .ok) with
+  | .ok => specExit (specMatched c all) (specErrored c all) c.quiet
+  | .pipe => 0
+  | .err => 2
 
 /-- Every write to stdout succeeds (no consumer fault). -/
 def writesOk : Item → Bool
@@ -76,8 +91,8 @@ def specStats (all : List Item) : Stats := ⟨all.countP isOk, all.countP isMatc
 /-- Some callback of the parallel run returned `WalkState::Quit`. -/
 def quitIssued (c : Cfg) (ran : List Item) : Bool :=
   match c.mode with
-  | .search => (parSearchLoop c ran {}).2
-  | .files => (c.qam && ran.any isFile) || (printThread (filesParWalk c ran {}).2).2 != .ok
+  | .search => (parSearchLoop c ran (initSt c)).2
+  | .files => (c.qam && ran.any isFile) || (printThread (filesParWalk c ran (initSt c)).2).2 != .ok
 
 /-- `ran` = the entries a run processes when the walker would yield `all` if never told to quit.
 Single-threaded: the loop itself decides where to stop, so `ran = all`.  Multi-threaded: any order,
@@ -102,9 +117,9 @@ def filesPipe (c : Cfg) : List Item → Bool
 /-- A write to stdout failed with EPIPE during the run. -/
 def pipeHit (c : Cfg) (ran : List Item) : Bool :=
   match c.mode, c.parallel with
-  | .search, false => (searchLoop c ran {}).2
-  | .search, true => (parSearchLoop c ran {}).1.brokenPipe
+  | .search, false => (searchLoop c ran (initSt c)).2
+  | .search, true => (parSearchLoop c ran (initSt c)).1.brokenPipe
   | .files, false => filesPipe c ran
-  | .files, true => (printThread (filesParWalk c ran {}).2).2 == .pipe
+  | .files, true => (printThread (filesParWalk c ran (initSt c)).2).2 == .pipe
 
 end RgVerif.ExitSpec
